@@ -18,7 +18,7 @@ SHRINK = {"quick": False, "thorough": True}
 TIME_LIMIT = {"quick": 150, "thorough": 3300}
 RULE = (
     "Hypothesis draws generating parameters (tau 30..600 days, M 10..1e6, p_initial 3000..12000 psia), a frac-face "
-    "schedule below p_initial (2..4 levels, optionally with multiplicative noise), 40..150 days, a PVT table "
+    "schedule below p_initial (2..4 levels between 0.4 % and 95 % of p_initial, i.e. down to ~11 psi, optionally with multiplicative noise), the unit of every pressure involved (psi, MPa, bar, Pa: table, record and limits converted together), 40..150 days, a PVT table "
     "(shipped Haynesville or gas table), zero-rate days, missing pressures, the filter flag (unfiltered only without "
     "missing pressures), a smoothing window in {None,1,3,7}, an iteration budget 2..12, pressure_imax up to the table "
     "maximum and inplace_max above the cumulative production. 'objective' cases evaluate the fitting objective at "
